@@ -4,6 +4,7 @@ package main
 
 import (
 	"fmt"
+	"reflect"
 	"strings"
 
 	"github.com/glycerine/zygomys/v9/zygo"
@@ -11,7 +12,7 @@ import (
 )
 
 type hstep struct {
-	op  byte   // G: (togo r)   P: r passed to a Go method   S: (hset r key v)
+	op  byte   // G: (togo r)   P: r passed to a Go method   M: a Go method called ON r   S: (hset r key v)
 	rec *rnode // the record the step acts on
 	key string
 	v   *val
@@ -28,69 +29,132 @@ func typedNodes(root *rnode) []*rnode {
 	return out
 }
 
-// genHistory: root + steps; mutations only add or overwrite fields (never a struct-valued field).
+// wrongKind: a value that certainly does not fit a field of type ty (an error by the specification and in the code)
+func wrongKind(ty string) *val {
+	switch ty[0] {
+	case 's':
+		return &val{k: 'I', i: 5}
+	case 'i', 'j', 'f', 'b', 't', 'y':
+		return &val{k: 'S', s: "bad"}
+	}
+	return &val{k: 'I', i: 5} // slices, pointers, interfaces, maps
+}
+
+func (rn *runner) hasSelf(n *rnode) bool {
+	_, ok := reflect.PtrTo(rn.regOf[n.tn].typ).MethodByName("Self")
+	return ok
+}
+
+// genHistory: root + steps.  Mutations only add or overwrite fields (never a struct-valued field).
+// Half of the histories start with a FAULT (a wrong-kind value somewhere in the tree): the first conversions fail,
+// the script repairs the record with hset, later conversions (explicit, as argument, or implicit as receiver of a
+// method) must succeed and show the current fields — a failed conversion leaves nothing behind.
 func (rn *runner) genHistory(g *gen, s *sinfo) (*rnode, []hstep) {
 	root := g.record(s, "top", 0)
-	initial := cloneNode(root, map[*rnode]*rnode{})
-	steps := []hstep{{op: 'G', rec: root}}
-	if g.r.Intn(3) == 0 {
-		steps[0].op = 'P'
+	usable := func(n *rnode) []det {
+		var ds []det
+		for _, d := range rn.regOf[n.tn].dets {
+			if !d.emb && !strings.Contains(d.ty, "?") && d.ty[0] != 'V' {
+				ds = append(ds, d)
+			}
+		}
+		return ds
 	}
-	nmut := 1 + g.r.Intn(3)
+	keyFor := func(t *rnode, d det) string {
+		key := d.key
+		for _, have := range t.keys { // keep the spelling the record already uses for this field
+			if have == d.key || (lowerFirst(d.key) == have && lowerFirst(d.key) != d.key) {
+				key = have
+			}
+		}
+		return key
+	}
+	set := func(t *rnode, key string, v *val) {
+		for i, k0 := range t.keys {
+			if k0 == key {
+				t.vals[i] = v
+				return
+			}
+		}
+		t.keys = append(t.keys, key)
+		t.vals = append(t.vals, v)
+	}
+	// optional fault, placed before the snapshot of the initial tree
+	var faultRec *rnode
+	var faultDet det
+	faultKey := ""
+	if g.r.Intn(2) == 0 {
+		cands := typedNodes(root)
+		t := cands[g.r.Intn(len(cands))]
+		if g.r.Intn(2) == 0 {
+			t = root
+		}
+		if ds := usable(t); len(ds) > 0 {
+			faultRec, faultDet = t, ds[g.r.Intn(len(ds))]
+			faultKey = keyFor(t, faultDet)
+			set(t, faultKey, wrongKind(faultDet.ty))
+		}
+	}
+	initial := cloneNode(root, map[*rnode]*rnode{})
+	var steps []hstep
+	attached := false // the root has a Go object attached (a successful G or M step)
+	_, canSee := rn.see[s.goName]
+	canSelf := rn.hasSelf(root)
+	convert := func(c *rnode) {
+		isRoot := c == root
+		ops := []byte{'G', 'G'}
+		if _, ok := rn.see[rn.regOf[c.tn].goName]; ok {
+			ops = append(ops, 'P')
+		}
+		if isRoot && canSelf && !attached {
+			ops = append(ops, 'M', 'M', 'M')
+		}
+		op := ops[g.r.Intn(len(ops))]
+		steps = append(steps, hstep{op: op, rec: c})
+		if isRoot && faultRec == nil && (op == 'G' || op == 'M') {
+			attached = true
+		}
+	}
+	_ = canSee
+	convert(root)
+	if faultRec != nil {
+		if g.r.Intn(3) == 0 {
+			convert(root) // fails again
+		}
+		g.pool = map[string][]*rnode{}
+		v := g.value(faultDet.ty, g.maxD-1)
+		steps = append(steps, hstep{op: 'S', rec: faultRec, key: faultKey, v: cloneVal(v, map[*rnode]*rnode{})})
+		set(faultRec, faultKey, v)
+		faultRec = nil
+		convert(root)
+	}
+	nmut := g.r.Intn(3)
+	if len(steps) == 1 {
+		nmut++
+	}
 	for m := 0; m < nmut; m++ {
 		cands := typedNodes(root) // records attached to the tree now (new values included)
 		t := cands[g.r.Intn(len(cands))]
 		if g.r.Intn(3) == 0 {
 			t = root
 		}
-		ts := rn.regOf[t.tn]
-		var ds []det
-		for _, d := range ts.dets {
-			if !d.emb && !strings.Contains(d.ty, "?") && d.ty[0] != 'V' {
-				ds = append(ds, d)
-			}
-		}
+		ds := usable(t)
 		if len(ds) == 0 {
 			continue
 		}
 		for k := 1 + g.r.Intn(2); k > 0; k-- {
 			d := ds[g.r.Intn(len(ds))]
-			key := d.key
-			for _, have := range t.keys { // keep the spelling the record already uses for this field
-				if have == d.key || (lowerFirst(d.key) == have && lowerFirst(d.key) != d.key) {
-					key = have
-				}
-			}
+			key := keyFor(t, d)
 			g.pool = map[string][]*rnode{} // new values contain new records only
 			v := g.value(d.ty, g.maxD-1)
 			steps = append(steps, hstep{op: 'S', rec: t, key: key, v: cloneVal(v, map[*rnode]*rnode{})}) // snapshot: later steps may change records inside v
-			// apply to the tree (hash set: an existing key keeps its position)
-			found := false
-			for i, k0 := range t.keys {
-				if k0 == key {
-					t.vals[i] = v
-					found = true
-				}
-			}
-			if !found {
-				t.keys = append(t.keys, key)
-				t.vals = append(t.vals, v)
-			}
+			set(t, key, v)
 		}
 		// convert again: the root, or the changed record itself
-		c := root
-		if g.r.Intn(3) == 0 {
-			c = t
-		}
-		op := byte('G')
-		if _, ok := rn.see[rn.regOf[c.tn].goName]; ok && g.r.Intn(3) == 0 {
-			op = 'P'
-		}
-		steps = append(steps, hstep{op: op, rec: c})
-	}
-	if steps[0].op == 'P' {
-		if _, ok := rn.see[s.goName]; !ok {
-			steps[0].op = 'G'
+		if g.r.Intn(3) == 0 && t != root {
+			convert(t)
+		} else {
+			convert(root)
 		}
 	}
 	return initial, steps
@@ -140,7 +204,7 @@ func (rn *runner) runHistory(initial *rnode, steps []hstep) (input string, obs s
 	for _, st := range steps {
 		name := fmt.Sprintf("%s%d", prefix, st.rec.id)
 		switch st.op {
-		case 'G', 'P':
+		case 'G', 'P', 'M':
 			fmt.Fprintf(&in, " %c %d", st.op, st.rec.id)
 			if obs != "" {
 				continue
@@ -158,8 +222,14 @@ func (rn *runner) runHistory(initial *rnode, steps []hstep) (input string, obs s
 				}
 				outs = append(outs, "OK "+renderGo(x.GoShadowStruct))
 			} else {
-				m := rn.see[rn.regOf[st.rec.tn].goName]
-				r := lib.Eval(rn.env, fmt.Sprintf("(_method %s %s: %s)", m[0], m[1], name), 2000000)
+				src := ""
+				if st.op == 'M' {
+					src = fmt.Sprintf("(_method %s Self:)", name)
+				} else {
+					m := rn.see[rn.regOf[st.rec.tn].goName]
+					src = fmt.Sprintf("(_method %s %s: %s)", m[0], m[1], name)
+				}
+				r := lib.Eval(rn.env, src, 2000000)
 				if r.Class != lib.OutValue {
 					outs = append(outs, "ERR")
 					continue
